@@ -511,10 +511,19 @@ class StmtMixin:
         cands = [lab, alt]
         # the loop text a contract names may contain locals that have since been renamed: on the unchanged tree the loop
         # with this ordinal had the text recorded in baseline/roles.json
-        old_text = (_roles().get(key) or {}).get("loops", {}).get(lab)
+        ro = _roles().get(key) or {}
+        old_text = ro.get("loops", {}).get(lab)
         if old_text and old_text != alt:
-            from .front import loop_keys
-            if len(loop_keys(fr.fi.node)) == len((_roles().get(key) or {}).get("loops", {})):
+            # ... accepted only if the loop's text is the recorded one up to the renaming of locals
+            from .front import local_binding_order
+            import re as _re
+
+            def norm(text, names):
+                for i_, nm_ in sorted(enumerate(names), key=lambda t: -len(t[1])):
+                    text = _re.sub(r"(?<![A-Za-z0-9_.])%s(?![A-Za-z0-9_])" % _re.escape(nm_), "\x00%d\x00" % i_, text)
+                return text
+            now_names = local_binding_order(fr.fi.node)
+            if len(now_names) == len(ro.get("locals", [])) and norm(alt, now_names) == norm(old_text, ro["locals"]):
                 cands.append(old_text)
         for k in cands:
             kk = (key, k) if (key, k) in self.top.loop_specs else (k if (key == self.top.key and k in self.top.loop_specs) else None)
